@@ -20,9 +20,9 @@ use std::sync::Arc;
 pub const LOG_MIN: usize = 256;
 pub const LOG_CAP: usize = 1024;
 /// largest single request a metered thread is allowed to make (bytes)
-pub const HARD_SINGLE: u64 = 1 << 31;
+pub const HARD_SINGLE: u64 = 1 << 30;
 /// largest total a metered thread is allowed to request (bytes)
-pub const HARD_TOTAL: u64 = 1 << 33;
+pub const HARD_TOTAL: u64 = 1 << 31;
 
 /// Published by a metered thread for its watchdog.
 #[derive(Default)]
